@@ -19,6 +19,7 @@ EXPLANATION = (
     "table, SQL text is parsed statement by statement -- DELETE and DROP TABLE only on tables created in the same function, ALTER ... DROP COLUMN never, "
     "UPDATE only on columns added by this or the previous revision (backfill); C36.3 folding create_table/add_column/drop_* over the chain yields "
     "exactly the tables and columns of the declarative models."
+    " C36.4 an `update T set c = (select .. from S ..)` whose S is a scratch table created in the same upgrade() requires S's defining query to carry no WHERE (or the same predicate as the UPDATE): unmatched rows are assigned NULL."
 )
 
 DB = "redun/backends/db/__init__.py"
